@@ -26,6 +26,8 @@ EXPLANATION_ADDED3 = (' (R5 also) copy.copy(Regions) — the `__copy__` the clas
 EXPLANATION += EXPLANATION_ADDED3
 EXPLANATION_ADDED2 = (' (R7) regions that come out of one parse are values of their own (C13.R7 on the DS9 reader).')
 EXPLANATION += EXPLANATION_ADDED2
+EXPLANATION_ADDED4 = (' (R4b) copy.deepcopy is a primitive only for classes that do not customise it: every __deepcopy__ / __reduce_ex__ / __reduce__ / __getstate__ defined by a class on the copy path (Meta and subclasses, PixCoord, Region, Regions, RegionBoundingBox, RegionMask) is followed with the may-hold-a-reference dataflow of C13.R7 (source: the object being copied; sanitizer: copy.deepcopy of the member, on every path) and must not hand a member of the original to the copy.')
+EXPLANATION += EXPLANATION_ADDED4
 TRUSTED = ['copy.deepcopy yields an equal object sharing no mutable state', 'list slicing / list.copy() build a new list']
 ASSUMPTIONS = ['descriptor __set__ stores the value it validated (C17.R2)']
 
@@ -442,6 +444,38 @@ def r6(ctx):
             ctx.ok(construct, f'marker {gname}: ' + '; '.join(sorted({_copy_stable(m, core, d)[1] for d in defs})))
 
 
+def r4b(ctx):
+    """copy.deepcopy is a primitive only for classes that do not customise it: a `__deepcopy__` (or `__reduce_ex__` /
+    `__getstate__`) defined by a class on the copy path (Meta and its subclasses, PixCoord, Region, Regions, RegionBoundingBox,
+    RegionMask) decides what "deep" means for every Region.copy().  Such a method is followed with the may-hold-a-reference
+    dataflow of C13.R7 — source: the object being copied; sanitizer: copy.deepcopy of the member — and must not hand a
+    member of the original to the copy."""
+    from .c13 import _Shared
+    m = ctx.model
+    n = 0
+    for cname in ('Meta', 'RegionMeta', 'RegionVisual', 'PixCoord', 'Region', 'PixelRegion', 'SkyRegion', 'Regions',
+                  'RegionBoundingBox', 'RegionMask'):
+        ci = m.cls(cname)
+        for hook in ('__deepcopy__', '__reduce_ex__', '__reduce__', '__getstate__'):
+            f = ci.methods.get(hook)
+            if f is None:
+                continue
+            n += 1
+            params = [a.arg for a in f.node.args.args]
+            an = _Shared(m, f, {params[0]})
+            an.block(f.node.body)
+            if an.returns:
+                ctx.bad(f'{cname}.{hook}', 'deepcopy-shares-members',
+                        f'{cname}.{hook} builds the copy that copy.deepcopy — hence Region.copy(), {cname}.copy() — returns, and '
+                        f'hands it members of the original without copying them (`{norm(an.returns[0])[:60]}` holds them): a value '
+                        'such as a Quantity or an array stored in meta/visual is one object in the copy and in the original, so '
+                        'an in-place change of the copy shows in the original', f.loc(an.returns[0]))
+            else:
+                ctx.ok(f'{cname}.{hook}', 'every member reaches the copy through copy.deepcopy')
+    if not n:
+        ctx.ok('copy path', 'no class on the copy path customises deepcopy / pickling: copy.deepcopy is the library primitive')
+
+
 def r7(ctx):
     """regions that come out of one parse are values of their own: changing the metadata of one never shows in another
     (C13.R7: the DS9 reader deep-copies the metadata that several regions inherit)."""
@@ -454,6 +488,7 @@ RULES = [
     RuleDef('R2', 'Region.__eq__ compares class and every field, never raises; __ne__ negates', r2, 25),
     RuleDef('R3', '_params = constructor parameters, each stored', r3, 23),
     RuleDef('R4', 'PixCoord.copy / Meta.copy deep; PixCoord.__eq__', r4, 3),
+    RuleDef('R4b', 'no class on the copy path customises deepcopy in a way that shares members', r4b, 1),
     RuleDef('R5', 'Regions slicing/copy bind a new list', r5, 2),
     RuleDef('R6', 'values the DS9 reader stores in visual are copy-stable (point symbol markers)', r6, 5),
     RuleDef('R7', 'regions read from one text share no mutable metadata object (C13.R7)', r7, 2),
